@@ -160,6 +160,8 @@ def make_gateway(h, version="1.4", flavour="sync", persistence="sym", callback=T
     # ghost: how many `set` commands were handed to the transport per (child, value type), and with what payload
     ctx.ghost["setcount"] = GhostArr(z3.K(INT, z3.K(INT, z3.IntVal(0))), ("child", "vt"), "int")
     ctx.ghost["setpay"] = GhostArr(ctx.fresh_term(z3.ArraySort(INT, z3.ArraySort(INT, STR)), "setpay"), ("child", "vt"), "str")
+    ctx.ghost["rawjobs"] = 0
+    ctx.ghost["setjobs"] = 0
     ctx.ghost["events"] = []
     ctx.ghost["localtime"] = 0
     ctx.ghost["new_id"] = None
